@@ -10,6 +10,8 @@ import (
 	"net"
 	"net/http"
 	"net/http/httptest"
+	"net/netip"
+	"net/url"
 	"os"
 	"sort"
 	"strings"
@@ -82,10 +84,13 @@ type runner struct {
 	nLeases, nDelivers, nBatchCalls, nBatchMulti, maxGated int
 
 	// http mode
-	srv      *httptest.Server
-	srvNext  ResSpec
-	allowDel *dispatcher.HTTPDeliverer
-	denyDels []*dispatcher.HTTPDeliverer
+	srv       *httptest.Server
+	srvNext   ResSpec
+	dsrv      *httptest.Server
+	dwire     int
+	redirDels map[string]*dispatcher.HTTPDeliverer
+	allowDel  *dispatcher.HTTPDeliverer
+	denyDels  []*dispatcher.HTTPDeliverer
 }
 
 func (r *runner) emit(ev Event) {
@@ -157,7 +162,7 @@ func (r *runner) settleEvent(call string, batch bool, bsize int, leaseID string,
 
 func (r *runner) concrete(s ResSpec) ResSpec {
 	if s.Kind != "" {
-		return ResSpec{Kind: s.Kind, Code: s.Code}
+		return ResSpec{Kind: s.Kind, Code: s.Code, Via: s.Via}
 	}
 	pick := func(lo, hi int, not ...int) int {
 		for {
@@ -209,25 +214,40 @@ func (r *runner) nextSpec(t *target) ResSpec {
 	return r.concrete(sc[i])
 }
 
+// stubResult turns a script element into what a Deliverer returns.  Errors come
+// in the shapes the production deliverer produces: bare, wrapped with %w, and
+// inside the *url.Error net/http's client puts around transport and redirect
+// errors.
 func stubResult(s ResSpec, n int) dispatcher.Result {
+	inURLError := func(err error) error { return &url.Error{Op: "Post", URL: "http://t.verif.test/hook", Err: err} }
 	switch s.Kind {
 	case "status":
 		return dispatcher.Result{StatusCode: s.Code}
 	case "neterr":
-		if n%2 == 0 {
+		switch n % 3 {
+		case 0:
 			return dispatcher.Result{Err: &net.OpError{Op: "dial", Net: "tcp", Err: errors.New("connection refused")}}
+		case 1:
+			return dispatcher.Result{Err: io.ErrUnexpectedEOF}
 		}
-		return dispatcher.Result{Err: io.ErrUnexpectedEOF}
+		return dispatcher.Result{Err: inURLError(&net.OpError{Op: "read", Net: "tcp", Err: errors.New("connection reset by peer")})}
 	case "timeout":
-		if n%2 == 0 {
+		switch n % 3 {
+		case 0:
 			return dispatcher.Result{Err: context.DeadlineExceeded}
+		case 1:
+			return dispatcher.Result{Err: fmt.Errorf("Post %q: %w", "http://x", context.DeadlineExceeded)}
 		}
-		return dispatcher.Result{Err: fmt.Errorf("Post %q: %w", "http://x", context.DeadlineExceeded)}
+		return dispatcher.Result{Err: inURLError(context.DeadlineExceeded)}
 	case "denied":
-		if n%2 == 0 {
+		switch n % 3 {
+		case 0:
 			return dispatcher.Result{Err: dispatcher.ErrPolicyDenied}
+		case 1:
+			return dispatcher.Result{Err: fmt.Errorf("%w: host %q denied by egress policy", dispatcher.ErrPolicyDenied, "x")}
 		}
-		return dispatcher.Result{Err: fmt.Errorf("%w: host %q denied by egress policy", dispatcher.ErrPolicyDenied, "x")}
+		// a denial of a redirect hop as it leaves http.Client.Do
+		return dispatcher.Result{Err: inURLError(fmt.Errorf("%w: host %q denied by egress policy", dispatcher.ErrPolicyDenied, "x"))}
 	}
 	return dispatcher.Result{Err: errors.New("bad script element")}
 }
@@ -244,17 +264,33 @@ func observed(res dispatcher.Result) map[string]any {
 	return map[string]any{"kind": "neterr", "code": 0}
 }
 
-// deliverEvent records one invocation of the Deliverer with the result it
-// returned; wire is the number of requests that reached the transport for
-// it (lock held).
-func (r *runner) deliverEvent(g *gate, want ResSpec, res dispatcher.Result, wire int) {
+// deliverEvent records one invocation of the Deliverer (lock held).
+//
+//	res    the delivery result.  Normally it is read off what the Deliverer
+//	       returned (errors.Is ErrPolicyDenied / deadline / other error /
+//	       status).  Where the behaviour arranged an egress-policy denial
+//	       (want.Kind = denied) the transport observation decides instead:
+//	       the call failed, it did not time out, and no request reached the
+//	       denied destination (and, for a denied redirect hop, exactly one
+//	       reached the first hop) - that IS a policy denial, whatever the
+//	       returned error's chain looks like.  seen keeps the errors.Is view.
+//	wire   requests that reached the first hop;  dwire  requests that reached
+//	       the destination the policy denies;  redir  a redirect hop was denied.
+func (r *runner) deliverEvent(g *gate, want ResSpec, res dispatcher.Result, wire int, dwire int) {
 	r.nDelivers++
 	errText := ""
 	if res.Err != nil {
 		errText = res.Err.Error()
 	}
-	r.emit(Event{"ev": "Deliver", "id": g.id, "tg": g.tg, "lease": g.lease, "att": g.att, "res": observed(res),
-		"want": map[string]any{"kind": want.Kind, "code": want.Code}, "wire": wire, "errtext": errText})
+	seen := observed(res)
+	truth := seen
+	redir := want.Kind == "denied" && want.Via != ""
+	if want.Kind == "denied" && res.Err != nil && seen["kind"] != "timeout" && dwire == 0 && ((redir && wire == 1) || (!redir && wire == 0)) {
+		truth = map[string]any{"kind": "denied", "code": 0}
+	}
+	r.emit(Event{"ev": "Deliver", "id": g.id, "tg": g.tg, "lease": g.lease, "att": g.att, "res": truth, "seen": seen,
+		"want": map[string]any{"kind": want.Kind, "code": want.Code}, "via": want.Via, "redir": redir, "wire": wire, "dwire": dwire,
+		"errtext": errText})
 }
 
 type stubDeliverer struct{ r *runner }
@@ -298,31 +334,40 @@ func (r *runner) release(g *gate) dispatcher.Result {
 	t := r.targets[g.tg]
 	if t == nil {
 		res := dispatcher.Result{Err: errors.New("unknown target")}
-		r.deliverEvent(g, ResSpec{Kind: "neterr"}, res, 0)
+		r.deliverEvent(g, ResSpec{Kind: "neterr"}, res, 0, 0)
 		return res
 	}
 	want := r.nextSpec(t)
-	res := stubResult(want, r.nDelivers)
+	res := stubResult(want, r.nDelivers+int(r.spec.Seed%3))
 	wire := 1
 	if want.Kind == "denied" {
 		wire = 0 // the stub stands for policy check + transport: a denial is decided before the transport
 	}
 	t.wire += wire
-	r.deliverEvent(g, want, res, wire)
+	r.deliverEvent(g, want, res, wire, 0)
 	return res
 }
 
 // httpDeliver sends through the production HTTPDeliverer: an allow-all policy
-// against the loopback server for everything but "denied", one of several
-// denying policies for "denied".  wire counts what the server saw.
+// against the loopback server for everything but "denied"; one of several
+// denying policies for a denial of the target itself; and, for a denied (or
+// followed) REDIRECT hop, a policy with redirects on that admits the first hop
+// and denies (admits) the Location the first hop answers with.  wire counts
+// what the first-hop server saw, dwire what the second server - which stands
+// for every other destination - saw.
 func (r *runner) httpDeliver(ctx context.Context, dl dispatcher.Delivery, g *gate) dispatcher.Result {
 	r.mu.Lock()
 	t := r.targets[g.tg]
 	want := r.nextSpec(t)
-	before := t.wire
+	before, dbefore := t.wire, r.dwire
 	r.srvNext = want
 	del := r.allowDel
-	if want.Kind == "denied" {
+	switch {
+	case want.Via != "":
+		if d, ok := r.redirDels[want.Via]; ok {
+			del = d
+		}
+	case want.Kind == "denied":
 		del = r.denyDels[r.nDelivers%len(r.denyDels)]
 	}
 	if want.Kind == "neterr" && r.nDelivers%2 == 1 {
@@ -331,9 +376,31 @@ func (r *runner) httpDeliver(ctx context.Context, dl dispatcher.Delivery, g *gat
 	r.mu.Unlock()
 	res := del.Deliver(ctx, dl)
 	r.mu.Lock()
-	r.deliverEvent(g, want, res, t.wire-before)
+	r.deliverEvent(g, want, res, t.wire-before, r.dwire-dbefore)
 	r.mu.Unlock()
 	return res
+}
+
+const firstHopHost = "first.verif.test"
+
+// redirect Locations per way of denial
+var redirLocation = map[string]string{
+	"deny":     "http://denied.verif.test/landing",
+	"denycidr": "http://10.1.2.3/landing",
+	"scheme":   "ftp://files.verif.test/landing",
+	"allow":    "http://other.verif.test/landing",
+	"rebind":   "http://internal.verif.test/landing",
+	"follow":   "http://allowed.verif.test/landing",
+}
+
+// fakeResolver answers the policy's DNS look-ups (no real DNS in the sandbox).
+type fakeResolver map[string]string
+
+func (f fakeResolver) LookupIPAddr(_ context.Context, host string) ([]net.IPAddr, error) {
+	if ip, ok := f[host]; ok {
+		return []net.IPAddr{{IP: net.ParseIP(ip)}}, nil
+	}
+	return nil, fmt.Errorf("fake resolver: no such host %q", host)
 }
 
 func (r *runner) startHTTP() {
@@ -347,13 +414,16 @@ func (r *runner) startHTTP() {
 		}
 		next := r.srvNext
 		r.mu.Unlock()
-		switch next.Kind {
-		case "status":
+		switch {
+		case next.Via != "":
+			w.Header().Set("Location", redirLocation[next.Via])
+			w.WriteHeader(next.Code)
+		case next.Kind == "status":
 			if next.Code >= 300 && next.Code < 400 {
 				w.Header().Set("Location", "http://127.0.0.1:1/elsewhere")
 			}
 			w.WriteHeader(next.Code)
-		case "timeout":
+		case next.Kind == "timeout":
 			select {
 			case <-req.Context().Done():
 			case <-time.After(2 * time.Second):
@@ -366,9 +436,31 @@ func (r *runner) startHTTP() {
 			}
 		}
 	}))
+	// every destination other than the first hop ends here
+	r.dsrv = httptest.NewServer(http.HandlerFunc(func(w http.ResponseWriter, req *http.Request) {
+		_, _ = io.Copy(io.Discard, req.Body)
+		r.mu.Lock()
+		r.dwire++
+		r.mu.Unlock()
+		w.WriteHeader(http.StatusOK)
+	}))
+	first, other := r.srv.Listener.Addr().String(), r.dsrv.Listener.Addr().String()
+	dial := func(ctx context.Context, network, addr string) (net.Conn, error) {
+		host, _, _ := net.SplitHostPort(addr)
+		switch {
+		case host == firstHopHost:
+			addr = first
+		case strings.HasSuffix(host, ".verif.test") || strings.HasPrefix(host, "10."):
+			addr = other
+		}
+		var d net.Dialer
+		return d.DialContext(ctx, network, addr)
+	}
 	// a private transport per run: httptest.Server.Close closes the idle connections of http.DefaultTransport,
 	// which would break deliveries of behaviours running in parallel in this process
-	client := func() *http.Client { return &http.Client{Transport: &http.Transport{DisableKeepAlives: true}} }
+	client := func() *http.Client {
+		return &http.Client{Transport: &http.Transport{DisableKeepAlives: true, DialContext: dial}}
+	}
 	r.allowDel = dispatcher.NewHTTPDeliverer(client(), dispatcher.EgressPolicy{})
 	r.denyDels = []*dispatcher.HTTPDeliverer{
 		dispatcher.NewHTTPDeliverer(client(), dispatcher.EgressPolicy{Deny: []dispatcher.EgressRule{{Host: "*"}}}),
@@ -376,6 +468,22 @@ func (r *runner) startHTTP() {
 		dispatcher.NewHTTPDeliverer(client(), dispatcher.EgressPolicy{Allow: []dispatcher.EgressRule{{Host: "only.example.org"}}}),
 		dispatcher.NewHTTPDeliverer(client(), dispatcher.EgressPolicy{DNSRebindProtection: true}),
 		dispatcher.NewHTTPDeliverer(client(), dispatcher.EgressPolicy{Deny: []dispatcher.EgressRule{{Host: "127.0.0.1"}}}),
+	}
+	res := fakeResolver{firstHopHost: "93.184.216.34", "internal.verif.test": "10.0.0.7", "allowed.verif.test": "93.184.216.35",
+		"denied.verif.test": "93.184.216.36", "other.verif.test": "93.184.216.37"}
+	mk := func(p dispatcher.EgressPolicy) *dispatcher.HTTPDeliverer {
+		p.Redirects = true
+		d := dispatcher.NewHTTPDeliverer(client(), p)
+		d.Resolver = res
+		return d
+	}
+	r.redirDels = map[string]*dispatcher.HTTPDeliverer{
+		"deny":     mk(dispatcher.EgressPolicy{Deny: []dispatcher.EgressRule{{Host: "denied.verif.test"}}}),
+		"denycidr": mk(dispatcher.EgressPolicy{Deny: []dispatcher.EgressRule{{IsCIDR: true, CIDR: netip.MustParsePrefix("10.0.0.0/8")}}}),
+		"scheme":   mk(dispatcher.EgressPolicy{}),
+		"allow":    mk(dispatcher.EgressPolicy{Allow: []dispatcher.EgressRule{{Host: "127.0.0.1"}, {Host: firstHopHost}}}),
+		"rebind":   mk(dispatcher.EgressPolicy{DNSRebindProtection: true}),
+		"follow":   mk(dispatcher.EgressPolicy{Deny: []dispatcher.EgressRule{{Host: "denied.verif.test"}}}),
 	}
 }
 
@@ -398,12 +506,20 @@ func Execute(spec *Run, scratch string, seq int) ([]Event, Summary, error) {
 	if spec.HTTP {
 		r.startHTTP()
 		defer r.srv.Close()
+		defer r.dsrv.Close()
 	}
 	for i := range spec.Targets {
 		ts := spec.Targets[i]
 		t := &target{spec: ts, url: targetURL(ts.Name)}
 		if spec.HTTP {
 			t.url = r.srv.URL + "/hook/" + ts.Name
+			for _, el := range spec.Scripts[ts.Name] {
+				if el.Via == "rebind" {
+					// rebind protection refuses a loopback first hop: name it, let the fake resolver call it public,
+					// and let the transport's dial override reach the loopback server all the same
+					t.url = "http://" + firstHopHost + "/hook/" + ts.Name
+				}
+			}
 		}
 		var rc dispatcher.RetryConfig
 		if ts.Retry != "" {
